@@ -27,7 +27,7 @@ Record sim := {
   dead_seen : bool;       (* the unit has observed the exit *)
   hold_left : option N;   (* remaining time the pipes stay open after death; None = closed/seen *)
   reqs : list (N * ureq); (* absolute time, request; sorted by time *)
-  trace : list (N * uout) (* reverse chronological *)
+  trace : list (N * uout * bool) (* reverse chronological; the flag: the child was alive *)
 }.
 
 Definition sim_init (cfg : ucfg) (b : tbeh) (rs : list (N * ureq)) : sim :=
@@ -69,11 +69,18 @@ Definition react (b : tbeh) (s : sim) (sg : usig) : sim :=
       end
   end.
 
+(* a signal sent to the group of a child that has already died reaches nobody: such trace entries
+   are marked ([false]) and rendered as code + 1000 *)
+Definition sim_child_alive (s : sim) : bool :=
+  match left s with Some 0 | None => false | Some _ => true end.
+
 Definition apply_outs (b : tbeh) (s : sim) (outs : list uout) : sim :=
-  let s1 := fold_left (fun acc o => match o with OSignal sg => react b acc sg | _ => acc end) outs s in
-  {| now := now s1; su := su s1; left := left s1; cstopped := cstopped s1; dead_ok := dead_ok s1;
-     dead_seen := dead_seen s1; hold_left := hold_left s1; reqs := reqs s1;
-     trace := rev (map (fun o => (now s1, o)) outs) ++ trace s1 |}.
+  fold_left (fun acc o =>
+               let alive := match o with OSignal _ => sim_child_alive acc | _ => true end in
+               let acc1 := match o with OSignal sg => react b acc sg | _ => acc end in
+               {| now := now acc1; su := su acc1; left := left acc1; cstopped := cstopped acc1;
+                  dead_ok := dead_ok acc1; dead_seen := dead_seen acc1; hold_left := hold_left acc1;
+                  reqs := reqs acc1; trace := (now acc1, o, alive) :: trace acc1 |}) outs s.
 
 Definition sim_step (tbl : ptable) (cfg : ucfg) (b : tbeh) (s : sim) (e : uevent) : outcome sim :=
   match ustep tbl cfg (su s) e with
@@ -93,6 +100,52 @@ Definition omin (a b : option N) : option N :=
 
 Definition due_in (sl : slc) : option N := if lpaused sl then None else Some (rem sl).
 
+(* ---- nextest's own stop (dispatcher.rs: after the Stop broadcast and the <= 100 ms wait for
+   acknowledgements, raise(SIGSTOP)). From then until SIGCONT the whole process is frozen: the unit
+   processes nothing, while wall-clock time goes on for every clock that is not paused and for a
+   child that ignores SIGTSTP. Signals sent to the stopped nextest stay pending; at SIGCONT they
+   and the continue signal are all ready at once and the signal stream map yields them in either
+   order ([cont_first]): the requests sent while stopped are delivered at the time of the
+   Continue, immediately before or immediately after it. *)
+Definition is_jc (r : ureq) : bool := match r with RStop | RContinue => true | _ => false end.
+
+Fixpoint defer_reqs_aux (cont_first : bool) (pending : option (list ureq)) (rs : list (N * ureq))
+  : list (N * ureq) :=
+  match rs with
+  | [] => []    (* never continued: what is pending is never delivered *)
+  | (t, r) :: rs' =>
+      match pending with
+      | None =>
+          match r with
+          | RStop => (t, r) :: defer_reqs_aux cont_first (Some []) rs'
+          | RContinue => defer_reqs_aux cont_first None rs'   (* not stopped: debounced *)
+          | _ => (t, r) :: defer_reqs_aux cont_first None rs'
+          end
+      | Some q =>
+          match r with
+          | RContinue =>
+              let held := map (fun x => (t, x)) (rev q) in
+              (if cont_first then (t, r) :: held else held ++ [(t, r)])
+              ++ defer_reqs_aux cont_first None rs'
+          | RStop => defer_reqs_aux cont_first pending rs'   (* debounced by the dispatcher *)
+          | _ => defer_reqs_aux cont_first (Some (r :: q)) rs'
+          end
+      end
+  end.
+Definition defer_reqs (cont_first : bool) (rs : list (N * ureq)) : list (N * ureq) :=
+  defer_reqs_aux cont_first None rs.
+
+(* frozen: a Stop has been delivered and the next job-control request still to come is the
+   Continue (requests alternate; [defer_reqs] has moved everything in between to the Continue) *)
+Fixpoint next_is_continue (rs : list (N * ureq)) : bool :=
+  match rs with
+  | [] => false
+  | (_, RContinue) :: _ => true
+  | (_, RStop) :: _ => false
+  | _ :: rs' => next_is_continue rs'
+  end.
+Definition frozen (s : sim) : bool := next_is_continue (reqs s).
+
 Definition next_delta (s : sim) : option N :=
   let u := su s in
   let t_req := match reqs s with (t, _) :: _ => Some (t - now s) | [] => None end in
@@ -108,7 +161,7 @@ Definition next_delta (s : sim) : option N :=
     | PExiting => omin (if fds_done u then None else due_in (lsl u)) (hold_left s)
     | _ => None
     end in
-  omin t_req (omin t_child t_timer).
+  if frozen s then t_req else omin t_req (omin t_child t_timer).
 
 Definition advance (dt : N) (s : sim) : sim :=
   {| now := now s + dt; su := su s;
@@ -140,7 +193,7 @@ Definition round (tbl : ptable) (cfg : ucfg) (b : tbeh) (s : sim) : outcome (opt
                            dead_ok := dead_ok s1; dead_seen := dead_seen s1; hold_left := hold_left s1;
                            reqs := rest; trace := trace s1 |} (Req r) with
                 | Ok s2 => Ok (Some s2) | Panicked => Panicked end
-              else
+              else if frozen s1 then Ok (Some s1) else
                 (* fall through to the other event kinds below *)
                 match left s1, dead_seen s1, cstopped s1 with
                 | Some 0, false, false =>
@@ -244,11 +297,17 @@ Definition res_code (r : ures) : N :=
   match r with UPass => 0 | ULeak => 1 | UFail => 2 | UTimeout => 3 end.
 
 (* [panicked?; done?; result; slow; time_taken; end time] ++ flattened (time, code) trace *)
-Definition sim_report (tbl : ptable) (cfg : ucfg) (b : tbeh) (rs : list (N * ureq)) : list N :=
+Definition sim_report_o (cont_first : bool) (tbl : ptable) (cfg : ucfg) (b : tbeh)
+           (rs0 : list (N * ureq)) : list N :=
+  let rs := defer_reqs cont_first rs0 in
   match simulate 400 tbl cfg b (sim_init cfg b rs) with
   | Panicked => [1]
   | Ok s =>
       [0; match ph (su s) with PDone => 1 | _ => 0 end; res_code (uresult (su s));
        if slow (su s) then 1 else 0; time_taken (su s); now s]
-      ++ flat_map (fun p => [fst p; out_code (snd p)]) (rev (trace s))
+      ++ flat_map (fun p : N * uout * bool =>
+                     [fst (fst p); out_code (snd (fst p)) + (if snd p then 0 else 1000)])
+                  (rev (trace s))
   end.
+Definition sim_report (tbl : ptable) (cfg : ucfg) (b : tbeh) (rs : list (N * ureq)) : list N :=
+  sim_report_o true tbl cfg b rs.
